@@ -137,3 +137,126 @@ impl<W, R, T> Default for RootCompilationScope<W, R, T> {
         Self::new()
     }
 }
+
+#[cfg(feature = "verif")]
+mod verif {
+    use super::*;
+    use serde_json::{json, Value};
+
+    fn type_json(t: &XType, interner: &Interner, depth: usize) -> Value {
+        let sub = |t: &Arc<XType>| type_json(t, interner, depth);
+        match t {
+            XType::Bool => json!({"k": "bool"}),
+            XType::Int => json!({"k": "int"}),
+            XType::Float => json!({"k": "float"}),
+            XType::String => json!({"k": "str"}),
+            XType::XUnknown => json!({"k": "unknown"}),
+            XType::Auto => json!({"k": "auto"}),
+            XType::XTail(_) => json!({"k": "tail"}),
+            XType::XGeneric(id) => json!({"k": "generic", "name": interner.resolve(*id).unwrap()}),
+            XType::Tuple(items) => json!({"k": "tuple", "items": items.iter().map(sub).collect::<Vec<_>>()}),
+            XType::XNative(n, args) => {
+                json!({"k": "native", "name": n.name(), "args": args.iter().map(sub).collect::<Vec<_>>()})
+            }
+            XType::XCallable(spec) => json!({
+                "k": "callable",
+                "params": spec.param_types.iter().map(sub).collect::<Vec<_>>(),
+                "ret": sub(&spec.return_type),
+            }),
+            XType::XFunc(spec) => func_json(spec, interner, depth),
+            XType::Compound(kind, spec, bind) => {
+                let args: Vec<Value> = spec
+                    .generic_names
+                    .iter()
+                    .map(|n| {
+                        bind.get(n).map_or_else(
+                            || json!({"k": "generic", "name": interner.resolve(*n).unwrap()}),
+                            sub,
+                        )
+                    })
+                    .collect();
+                let fields: Value = if depth == 0 {
+                    Value::Null
+                } else {
+                    spec.fields
+                        .iter()
+                        .map(|f| {
+                            json!({
+                                "name": interner.resolve(f.name).unwrap(),
+                                "type": type_json(&f.type_, interner, depth - 1),
+                            })
+                        })
+                        .collect::<Vec<_>>()
+                        .into()
+                };
+                json!({
+                    "k": kind.to_string(),
+                    "name": interner.resolve(spec.name).unwrap(),
+                    "generic_names": spec.generic_names.iter().map(|n| interner.resolve(*n).unwrap()).collect::<Vec<_>>(),
+                    "args": args,
+                    "fields": fields,
+                })
+            }
+        }
+    }
+
+    fn func_json(spec: &XFuncSpec, interner: &Interner, depth: usize) -> Value {
+        json!({
+            "k": "func",
+            "generics": spec.generic_params.as_ref().map(|g| g.iter().map(|n| interner.resolve(*n).unwrap()).collect::<Vec<_>>()),
+            "params": spec.params.iter().map(|p| json!({
+                "type": type_json(&p.type_, interner, depth),
+                "required": p.required,
+            })).collect::<Vec<_>>(),
+            "ret": type_json(&spec.ret, interner, depth),
+            "short_circuit": spec.short_circuit_overloads,
+        })
+    }
+
+    impl<W, R, T> RootCompilationScope<W, R, T> {
+        /// structured static type (JSON) of a top-level variable
+        pub fn verif_static_type(&self, name: &str) -> Option<String> {
+            let id = self.get_identifier(name)?;
+            let t = self.scope.verif_variable_type(&id)?;
+            Some(type_json(&t, &self.interner.borrow(), 3).to_string())
+        }
+
+        /// rendered static type of a top-level variable
+        pub fn verif_static_type_text(&self, name: &str) -> Option<String> {
+            let id = self.get_identifier(name)?;
+            let t = self.scope.verif_variable_type(&id)?;
+            Some(self.describe_type(t))
+        }
+
+        /// JSON array: every root-scope overload (static ones with their signature,
+        /// dynamic ones with their description)
+        pub fn verif_root_functions(&self) -> String {
+            let interner = self.interner.borrow();
+            let mut out: Vec<Value> = Vec::new();
+            for (name, overloads) in self.scope.verif_functions() {
+                let name = interner.resolve(name).unwrap().to_string();
+                for ov in overloads {
+                    out.push(match ov {
+                        Ok(spec) => json!({"name": name, "spec": func_json(&spec, &interner, 2)}),
+                        Err(desc) => json!({"name": name, "dynamic": desc}),
+                    });
+                }
+            }
+            out.sort_by_key(|v| v.to_string());
+            Value::Array(out).to_string()
+        }
+
+        /// names of the top-level variables
+        pub fn verif_variable_names(&self) -> Vec<String> {
+            let interner = self.interner.borrow();
+            let mut ret: Vec<String> = self
+                .scope
+                .verif_variable_names()
+                .into_iter()
+                .map(|n| interner.resolve(n).unwrap().to_string())
+                .collect();
+            ret.sort();
+            ret
+        }
+    }
+}
